@@ -342,6 +342,8 @@ expraction	: BREAK {
 			struct string_list *strings;
 
 			$$ = expr_alloc(EXPR_TYPE_FLAGS, lineno, NULL, NULL);
+			$2 = expandmacros($2, yyconfig->cl_macros,
+			    MACRO_CTX_DEFAULT);
 			strings = strings_alloc();
 			strings_append(strings, $2);
 			expr_set_strings($$, strings);
@@ -376,6 +378,10 @@ expraction	: BREAK {
 		| ADDHEADER STRING STRING {
 			$$ = expr_alloc(EXPR_TYPE_ADD_HEADER, lineno, NULL,
 			    NULL);
+			$2 = expandmacros($2, yyconfig->cl_macros,
+			    MACRO_CTX_DEFAULT);
+			$3 = expandmacros($3, yyconfig->cl_macros,
+			    MACRO_CTX_ACTION);
 			expr_set_add_header($$, $2, $3);
 		}
 		;
